@@ -131,6 +131,11 @@ def geo_match(a, b, tol):
 
     pa, pb = geom.flatten_cycle((a[0], a[1]), 0.02), geom.flatten_cycle((b[0], b[1]), 0.02)
     d = tol * 1.4143 + 0.06
+    # cheap rejection first: the bounding boxes of matching contours agree within d (the perfect-matching search tries many non-matching pairs)
+    ba = (min(p[0] for p in pa), min(p[1] for p in pa), max(p[0] for p in pa), max(p[1] for p in pa))
+    bb = (min(p[0] for p in pb), min(p[1] for p in pb), max(p[0] for p in pb), max(p[1] for p in pb))
+    if any(abs(x - y) > d for x, y in zip(ba, bb)):
+        return False
     if not geom.within(pa, pb, d)[0] or not geom.within(pb, pa, d)[0]:
         return False
     per = sum(math.hypot(q[0] - p_[0], q[1] - p_[1]) for p_, q in zip(pb, pb[1:]))
@@ -290,7 +295,18 @@ def run_case(case, ctx):
         if opt == 0:
             if len(got) != len(exp):
                 raise Violation("number of contours differs", glyph=name, got=len(got), expected=len(exp))
+            def cbox(cyc):
+                pts = [cyc[0]] + [p for _, ps in cyc[1] for p in ps]
+                return (min(p[0] for p in pts), min(p[1] for p in pts), max(p[0] for p in pts), max(p[1] for p in pts))
+
+            gboxes = [cbox((gc[0], gc[1])) for gc in got]
+            eboxes = [cbox(R.oplist(e_[0])) for e_ in exp]
+            slack = (tol or 0) + 1.01
+
             def pred(i, j):
+                # control-point boxes of matching contours agree within the rounding slack: rejects most wrong pairs of the matching search at once
+                if any(abs(x - y) > slack for x, y in zip(eboxes[i], gboxes[j])):
+                    return False
                 ecr, rev = exp[i]
                 gc = got[j]
                 cands = R.rotations(ecr) if rev else [ecr]
